@@ -7,5 +7,5 @@ CONSTANTS
   Export = FALSE
 CONSTRAINT Bound
 VIEW View
-INVARIANTS TypeOK Refines LargeEnough DesignReaders PanicsAreClean CodeGrowthOK
+INVARIANTS TypeOK Refines LargeEnough DesignReaders PanicsAreClean CodeGrowthOK TightDesign
 CHECK_DEADLOCK FALSE
